@@ -1,7 +1,7 @@
 """C05: SSA samples the CME.  Correspondence = stream replay of SSASimulator (rows + draw count) on
 time-independent networks.  Oracle/search = exact CME reference on finite state spaces (generator
 matrix, expm) against seeded ensembles, chi-square with alarm threshold p < 1e-9."""
-import json, math, random
+import json, re, math, random
 from harness import modelgen as G, replay as R
 from harness.props import c01, c06
 PID = "C05"; COQ_TARGET = "C05"
@@ -40,6 +40,14 @@ def gen_cases(seed, tier):
                 if not isinstance(rx["params"].get("k", ""), str): rx["params"]["k"] *= f
             c2["times"] = [t * 10.0 ** e for t in c2["times"]]; c2["rescaled"] = {"exponent": e, "base": c}
             cases.append(c2)
+        # time-translation family: the master equation of a network whose rates do not mention t is invariant under a shift of the clock, and
+        # nothing says the clock is positive: initial time and grid moved to (or across) the negative axis, same seed, same rows
+        # (seeded change S7_C05: a proposed reaction time below zero was taken for the "nothing can fire" sentinel)
+        elif rng.random() < 0.3 and not any(rx["type"] == "general" and re.search(r"\bt\b", rx["params"].get("rate", "")) for rx in c["spec"]["reactions"]) and not c["spec"].get("rules"):
+            sh = rng.choice([-16.0, -64.0, -c["times"][len(c["times"]) // 2], -c["times"][-1]])
+            if sh != 0.0:
+                c3 = json.loads(json.dumps(c)); c3["times"] = [t + sh for t in c3["times"]]; c3["t0"] = c.get("t0", 0.0) + sh; c3["shifted"] = {"by": sh, "base": c}
+                cases.append(c3)
     return cases
 
 def impl_case(case):
@@ -49,6 +57,9 @@ def impl_case(case):
         # the caller's array is laid out in memory
         rc = R.impl_replay(dict(case, strided_grid=False))
         r["contiguous_rows"] = rc.get("rows") if isinstance(rc, dict) else None
+    if "shifted" in case and isinstance(r, dict) and "rows" in r:
+        rb = R.impl_replay(case["shifted"]["base"])
+        r["unshifted_rows"] = rb.get("rows") if isinstance(rb, dict) else None
     if "rescaled" in case and isinstance(r, dict) and "rows" in r:
         rb = R.impl_replay(case["rescaled"]["base"])
         r["base_rows"] = rb.get("rows") if isinstance(rb, dict) else None
@@ -62,6 +73,10 @@ def oracle(case, r):
         k = next((i for i, (a, b) in enumerate(zip(r["rows"], r["contiguous_rows"])) if a != b), -1)
         return "grid layout: with the time grid passed as a non-contiguous view (same values, same seed) row %d is %r, with a contiguous grid %r" % (
             k, [float.fromhex(v) for v in r["rows"][k]] if k >= 0 else len(r["rows"]), [float.fromhex(v) for v in r["contiguous_rows"][k]] if k >= 0 else len(r["contiguous_rows"]))
+    if "shifted" in case and isinstance(r, dict) and r.get("unshifted_rows") is not None and r["rows"] != r["unshifted_rows"]:
+        k = next((i for i, (a, b) in enumerate(zip(r["rows"], r["unshifted_rows"])) if a != b), -1)
+        return "time translation: with the initial time and the grid shifted by %r (same seed, no rate mentions t) row %d is %r, the unshifted run has %r" % (
+            case["shifted"]["by"], k, [float.fromhex(v) for v in r["rows"][k]] if k >= 0 else len(r["rows"]), [float.fromhex(v) for v in r["unshifted_rows"][k]] if k >= 0 else len(r["unshifted_rows"]))
     if "rescaled" in case and r.get("base_rows") is not None and r["rows"] != r["base_rows"]:
         k = next(i for i, (a, b) in enumerate(zip(r["rows"], r["base_rows"])) if a != b) if len(r["rows"]) == len(r["base_rows"]) else -1
         return "time rescaling: with every rate constant x 1e-%d and the grid x 1e%d (same seed) row %d is %r, the unscaled run has %r" % (
@@ -71,7 +86,7 @@ def nontrivial(case): return True
 def site(case, msg): return (msg or "any").split(":")[0]
 def key(case): return c06.key(case)
 def stats(cases):
-    d = c06.stats(cases); d["time_rescaled"] = sum(1 for c in cases if "rescaled" in c); return d
+    d = c06.stats(cases); d["time_rescaled"] = sum(1 for c in cases if "rescaled" in c); d["time_shifted_to_negative_clock"] = sum(1 for c in cases if "shifted" in c); return d
 
 # ------------------------------------------------------------------ ensemble check against the exact CME
 def _cme_reference(spec, names, times, maxstates=400, V=None):
